@@ -352,8 +352,8 @@ func tryGetRedumpKey(fsys afero.Fs, requestedPath string) ([]byte, error) {
 // openKeyFile opens key file, a directory of that name is not a key file.
 func openKeyFile(fsys afero.Fs, path string) (afero.File, error) {
 	f, stat, err := openNoWait(fsys, path, os.O_RDONLY, 0)
-	if errors.Is(err, syscall.EINVAL) {
-		return nil, afero.ErrFileNotFound // neither a named pipe is
+	if errors.Is(err, syscall.EINVAL) || errors.Is(err, syscall.ENXIO) {
+		return nil, afero.ErrFileNotFound // neither a named pipe or a socket is
 	}
 	if err != nil {
 		return nil, err
@@ -368,9 +368,11 @@ func openKeyFile(fsys afero.Fs, path string) (afero.File, error) {
 }
 
 // isKeyFileAbsent tells that key file surely does not exist: there is no such file, something on the way to it
-// is not a directory (e.g. a file called REDKEY) or its name would be longer than a name can be.
+// is not a directory (e.g. a file called REDKEY), its name would be longer than a name can be or it is a symbolic link
+// which leads nowhere but to links.
 func isKeyFileAbsent(err error) bool {
-	return errors.Is(err, afero.ErrFileNotFound) || errors.Is(err, syscall.ENOTDIR) || errors.Is(err, syscall.ENAMETOOLONG)
+	return errors.Is(err, afero.ErrFileNotFound) || errors.Is(err, syscall.ENOTDIR) || errors.Is(err, syscall.ENAMETOOLONG) ||
+		errors.Is(err, syscall.ELOOP)
 }
 
 func deriveISOKey(targetKey, data1Key []byte) error {
